@@ -39,6 +39,13 @@
 (*   NoAlias       compute_results()                                        *)
 (*   Stable        [one batch committed] compute_results(); scribble res[x] *)
 (*   AppendOnly    [one batch committed] to_dict(); scribble d[_history][x][0]*)
+(* Strict commits: commit_current_to_history(strict=True) is modelled in both *)
+(* outcomes - CommitStrict (beta and logl set: an ordinary commit) and        *)
+(* CommitStrictRejected (one of them None: ValueError, NOTHING changes);      *)
+(* UnsetCurrent is set_current(k, None).  AlignedHistory states the alignment *)
+(* rule of the pinned code, RejectedAppendsNothing the rejected outcome; the  *)
+(* seeded variant SeededStrict = TRUE (append what is present, then raise) is *)
+(* refuted by both after  set_current(x); commit(strict) -> ValueError.       *)
 (* Binding (checks/c17.py): with Record = TRUE the variable `path' holds, for *)
 (* every step, the operation label, View and the predicted sharing; every    *)
 (* enumerated / simulated path is executed on a real StateManager.           *)
@@ -46,6 +53,8 @@
 EXTENDS Integers, Sequences, FiniteSets, TLC
 
 CONSTANTS Impl,        \* FALSE: intended semantics; TRUE: code-shaped semantics
+          SeededStrict,\* TRUE: a rejected strict commit appends what is present before raising (seeded variant;
+                       \* the pinned code validates first and appends nothing) - must be refuted by TLC
           MaxC, MaxL,  \* heap sizes (array cells, list cells)
           MaxCommits,  \* bound on committed batches per key
           Tags,        \* content tags of caller-made arrays (subset of 1..9)
@@ -182,16 +191,35 @@ UpdNew(S, t, b, copy) ==
                         !.ext   = IF copy THEN @ ELSE @ \cup {n1, n2},
                         !.optin = IF copy THEN @ ELSE @ \cup {n1, n2}])
 
-\* commit_current_to_history(): one fresh copy per non-None key, appended
-CommitOp(S) ==
+\* the append phase of commit_current_to_history(): one fresh copy per non-None key, appended
+AppendCur(S) ==
     LET P == Place(S, [k \in AK |-> ContOrFree(S, S.cur[k])], [k \in AK |-> <<>>])
-    IN  Inval([S EXCEPT
+    IN        [S EXCEPT
           !.arr = P.arr,
           !.lst = [l \in 1..MaxL |->
                      IF \E k \in AK : l = S.hl[k] /\ S.cur[k] # 0
                        THEN Append(S.lst[l], P.cur[CHOOSE k \in AK : l = S.hl[k] /\ S.cur[k] # 0])
                      ELSE IF l = S.hl["beta"] /\ S.beta # 0 THEN Append(S.lst[l], S.beta)
-                     ELSE S.lst[l]]])
+                     ELSE S.lst[l]]]
+
+Recorded(S, k) == IF k = "beta" THEN S.beta # 0 ELSE S.cur[k] # 0
+
+\* an accepted commit (lenient, or strict with the required keys present): append, count (ghost `rec':
+\* the number of accepted commits at which the key was recorded), invalidate the cache
+CommitOp(S) ==
+    Inval([AppendCur(S) EXCEPT !.rec = [k \in Keys |-> IF Recorded(S, k) THEN S.rec[k] + 1 ELSE S.rec[k]]])
+
+\* commit_current_to_history(strict=True) with beta or logl None: raises ValueError.  Intended (and the
+\* pinned code: validation comes first): nothing at all happens.  Seeded variant: the keys that are present
+\* have already been appended when the error is raised, and the cache is not invalidated on that path.
+StrictOK(S) == S.beta # 0 /\ S.cur["logl"] # 0
+RejectedOp(S) == IF SeededStrict THEN AppendCur(S) ELSE S
+
+\* after an import / load the recorded counts are those of the imported history
+Resync(S) == [S EXCEPT !.rec = [k \in Keys |-> Len(H(S, k))]]
+
+\* set_current(k, None)
+UnsetOp(S, k) == Inval(IF k = "beta" THEN [S EXCEPT !.beta = 0] ELSE [S EXCEPT !.cur[k] = 0])
 
 \* compute_results(): build the cache if absent (one stacked array per history key + logw) ...
 BuildCache(S) ==
@@ -274,8 +302,10 @@ LoadOp(S) == StoreCopies(S, S.disk.cur, S.disk.beta, S.disk.hist, S.disk.bhist)
 
 ScribbleOps == {"scribble", "scribble_list", "scribble_resdict"}
 ImportOps   == {"update_from_dict", "from_dict", "load_state"}
+CommitOps   == {"commit", "commit_strict"}
+RejectOps   == {"commit_strict_rejected", "rejected"}
 Class(op) == IF op \in ScribbleOps THEN "scribble" ELSE IF op \in ImportOps THEN "load_state"
-             ELSE IF op = "commit" THEN "commit" ELSE "other"
+             ELSE IF op \in CommitOps THEN "commit" ELSE IF op \in RejectOps THEN "rejected" ELSE "other"
 
 \* operation label: op, destination key k, tag t, index i, copy flag cp, and - for moves that name an
 \* array the caller holds - WHERE the caller got it from: w \in {"cur" (passed with copy=False under key k2),
@@ -301,7 +331,7 @@ Empty == [cur |-> [k \in AK |-> 0], beta |-> 0,
           hl |-> [k \in Keys |-> KIdx(k)],
           lst |-> [l \in 1..MaxL |-> IF l <= 3 THEN <<>> ELSE FREE],
           arr |-> [c \in 1..MaxC |-> FREE],
-          cache |-> NoCache, d |-> NoD, disk |-> NoDisk,
+          cache |-> NoCache, d |-> NoD, disk |-> NoDisk, rec |-> [k \in Keys |-> 0],
           ext |-> {}, optin |-> {}, lext |-> {}, rheld |-> FALSE]
 
 \* what the replay harness is told about the state reached: the view and the predicted sharing
@@ -343,13 +373,23 @@ UpdateCurrent  == \E t \in Tags : \E cp \in BOOLEAN :
                     Step(UpdNew(s, t, 1, cp), Lbl("update_current", "", t, 0, cp))
 Commit         == /\ \A k \in Keys : Len(H(s, k)) < MaxCommits
                   /\ Step(CommitOp(s), Lbl("commit", "", 0, 0, FALSE))
+\* strict commit, both outcomes
+CommitStrict   == /\ \A k \in Keys : Len(H(s, k)) < MaxCommits
+                  /\ StrictOK(s)
+                  /\ Step(CommitOp(s), Lbl("commit_strict", "", 0, 0, FALSE))
+CommitStrictRejected ==
+                  /\ \A k \in Keys : Len(H(s, k)) < MaxCommits
+                  /\ ~StrictOK(s)
+                  /\ Step(RejectedOp(s), Lbl("commit_strict_rejected", "", 0, 0, FALSE))
+\* set_current(k, None) for the keys strict mode requires
+UnsetCurrent   == \E k \in {"logl", "beta"} : Recorded(s, k) /\ Step(UnsetOp(s, k), Lbl("unset_current", k, 0, 0, FALSE))
 ComputeResults == Consistent(s) /\ Step(ResultsOp(s), Lbl("compute_results", "", 0, 0, FALSE))
 ToDict         == Step(ToDictOp(s), Lbl("to_dict", "", 0, 0, FALSE))
 MakeDict       == \E t \in Tags : \E n \in 0..1 : Step(MakeDictOp(s, t, n), Lbl("make_dict", "", t, n, FALSE))
-UpdateFromDict == s.d.on /\ Step(ImportOp(s), Lbl("update_from_dict", "", 0, 0, FALSE))
-FromDict       == s.d.on /\ Step(FromDictOp(s), Lbl("from_dict", "", 0, 0, FALSE))
+UpdateFromDict == s.d.on /\ Step(Resync(ImportOp(s)), Lbl("update_from_dict", "", 0, 0, FALSE))
+FromDict       == s.d.on /\ Step(Resync(FromDictOp(s)), Lbl("from_dict", "", 0, 0, FALSE))
 SaveState      == Step(SaveOp(s), Lbl("save_state", "", 0, 0, FALSE))
-LoadState      == s.disk.on /\ Step(LoadOp(s), Lbl("load_state", "", 0, 0, FALSE))
+LoadState      == s.disk.on /\ Step(Resync(LoadOp(s)), Lbl("load_state", "", 0, 0, FALSE))
 
 \* the caller overwrites an array it holds (cp = the array was passed with copy=False)
 \* (an empty array - the stacked image of an empty history - has nothing to overwrite)
@@ -365,6 +405,7 @@ CallerScribbleResDict == \E k \in RK : s.rheld /\ s.cache.on /\ s.cache.c[k] # 0
 
 Next == \/ GetCurrent \/ GetHistory \/ GetHistoryIdx \/ GetLastHistory \/ GetHistoryLength \/ ComputeLogw
         \/ SetCurrent \/ SetCurrentHeld \/ SetCurrentBeta \/ UpdateCurrent \/ Commit
+        \/ CommitStrict \/ CommitStrictRejected \/ UnsetCurrent
         \/ ComputeResults \/ ToDict \/ MakeDict \/ UpdateFromDict \/ FromDict \/ SaveState \/ LoadState
         \/ CallerScribble \/ CallerScribbleList \/ CallerScribbleResDict
 
@@ -402,7 +443,7 @@ AppendOnly ==
 
 \* a commit appends exactly one fresh cell per recorded non-None key, with the current content
 OnePerCommit ==
-    [][(last'.op = "commit") =>
+    [][(last'.op \in CommitOps) =>
          /\ \A k \in AK :
               IF s.cur[k] = 0 THEN H(s', k) = H(s, k)
               ELSE /\ Len(H(s', k)) = Len(H(s, k)) + 1
@@ -410,5 +451,18 @@ OnePerCommit ==
                       IN  n \notin Internal(s) \cup s.ext /\ s'.arr[n] = s.arr[s.cur[k]]
          /\ H(s', "beta") = IF s.beta = 0 THEN H(s, "beta") ELSE Append(H(s, "beta"), s.beta)
         ]_vars
+
+\* Alignment rule of the pinned code: a lenient commit skips None values, so the per-key histories need not
+\* have equal lengths; what holds is that the history of every key has exactly one batch per ACCEPTED commit
+\* at which that key was not None (counted since the last import / load, which installs the imported lengths).
+\* Keys recorded at the same accepted commits therefore stay aligned; a rejected commit counts for no key.
+AlignedHistory == \A k \in Keys : Len(H(s, k)) = s.rec[k]
+
+\* a rejected strict commit appends nothing, keeps the cache as it was and changes nothing an accessor returns
+RejectedAppendsNothing ==
+    [][(last'.op \in RejectOps) =>
+         /\ \A k \in Keys : s'.hl[k] = s.hl[k] /\ H(s', k) = H(s, k)
+         /\ s'.cache = s.cache
+         /\ View(s') = View(s)]_vars
 
 =============================================================================
